@@ -1,3 +1,4 @@
+#![cfg_attr(kani, recursion_limit = "1024")]
 #[cfg(not(feature = "disable-mimalloc"))]
 use mimalloc::MiMalloc;
 
